@@ -914,11 +914,11 @@ P_IDENTITY = 'exactly_lib.impls.types.string_transformer.impl.identity'
 IDENTITY = Inst(identity_mod.IdentityStringTransformer, _structure_renderer=Any_)
 
 M.contract(P_IDENTITY + ':IdentityStringTransformer._transform', params=dict(self=IDENTITY, lines=IterOf(Str)),
-           inline=True, ensures={'the lines themselves': lambda lines, result: result is lines}, raises_only=())
+           inline=True, props=('C14', 'C05'), ensures={'the lines themselves': lambda lines, result: result is lines}, raises_only=())
 
 M.contract('exactly_lib.impls.types.string_transformer.impl.sources.transformed_string_sources'
            ':StringTransformerFromLinesTransformer.transform',
-           params=dict(self=IDENTITY, model=SS),
+           params=dict(self=IDENTITY, model=SS), props=('C14', 'C05'),
            ensures={
                'wrapped in identity: same characters': lambda model, result: result.contents().as_str == model.txt,
                'wrapped in identity: same lines': lambda model, result:
